@@ -1,5 +1,6 @@
 From Coq Require Import Extraction ExtrOcamlBasic.
-Require Import NixV.Base.Prelude NixV.Base.F64 NixV.Gen.GenDimensions NixV.Axis.AxisSpec NixV.Axis.RangeModel.
+Require Import NixV.Base.Prelude NixV.Base.F64 NixV.Gen.GenDimensions NixV.Axis.AxisSpec NixV.Axis.RangeModel NixV.Access.Retrieval.
 Extraction Language OCaml.
 Extraction "model_C07.ml" getSampledIndex getSetIndex getDataFrameIndex getIndex pair_of
-  index_ok spec_equal x_sampled x_int x_ticks n_count fgt flt fle feq ofZ fis_finite fis_nan.
+  index_ok spec_equal x_sampled x_int x_ticks n_count fgt flt fle feq ofZ fis_finite fis_nan
+  positionToIndex_vec positionToIndex_one scaling_or_incompatible is_none_unit fmul fone.
